@@ -72,6 +72,7 @@ struct RunResult {
   std::vector<std::string> operandFp;  // phase-1 objects after the call
   std::string stickyClause;  // "" or clause broken by the sticky/cancel checks
   std::string rebuildFp;     // expression rebuilt with a fresh context
+  Solid rebuildSolid, resultSolid;
   double finalProgress = -1;
   bool ctxCancelled = false;
   std::vector<Solid> intermediates;   // phase-2 objects forced WITHOUT a context after the observed call
@@ -168,6 +169,7 @@ RunResult run_once(const Scenario& sc, const SimSetup& s, long k, long* nChecks,
     rr.finalProgress = ctx.Progress();
     rr.ctxCancelled = ctx.Cancelled();
     rr.fp = fp_manifold(res);
+    rr.resultSolid = solid_of(res);
     rr.empty = res.IsEmpty() && res.NumVert() == 0 && res.NumTri() == 0;
     if (res.Status() == Manifold::Error::Cancelled) {
       // stays Cancelled on re-query and through deriving ops
@@ -204,6 +206,7 @@ RunResult run_once(const Scenario& sc, const SimSetup& s, long k, long* nChecks,
       bool ok2;
       Manifold again = observe_with(e, sc.obs, fresh, &ok2);
       rr.rebuildFp = fp_manifold(again);
+      rr.rebuildSolid = solid_of(again);
     }
   });
   if (outc) *outc = out;
@@ -286,7 +289,16 @@ std::string job_c15(const Args& a) {
       if (!r.stickyClause.empty()) addViol(k, r.stickyClause);
     }
     if (r.operandFp != ref.operandFp) addViol(k, "operand_changed");
-    if (!r.rebuildFp.empty() && r.rebuildFp != ref.fp) addViol(k, "rebuild_with_fresh_context_differs:" + fp_diff(ref.fp, r.rebuildFp));
+    // The rebuild runs later in the same simulated run, i.e. under a different stretch of the
+    // schedule: in the parallel flavour it is compared at solid level (schedule-dependent meshes are
+    // C04's subject), in the serial flavour bit for bit.
+    if (!r.rebuildFp.empty()) {
+      if (a.i("W", 1) <= 1 && a.i("exact_rebuild", 1)) {
+        if (r.rebuildFp != ref.fp) addViol(k, "rebuild_with_fresh_context_differs:" + fp_diff(ref.fp, r.rebuildFp));
+      } else if (!solid_equal(r.rebuildSolid, ref.resultSolid)) {
+        addViol(k, "rebuild_with_fresh_context_differs:solid");
+      }
+    }
     if (!ptk.clause.empty()) addViol(k, ptk.clause);
     if (!r.observerClause.empty()) addViol(k, r.observerClause);
     if (r.intermediates.size() == ref.intermediates.size()) {
